@@ -323,7 +323,7 @@ class _ScpAcse:
     def is_aborted(self, *a):
         return False
 
-    def is_release_requested(self):
+    def is_release_requested(self, consume=True):
         return False
 
 
